@@ -7,4 +7,6 @@ DIR="$(cd "$(dirname "$0")" && pwd)"; export VERIF_DIR="$DIR"; cd "$DIR/harness"
 mkdir -p "$DIR/bin" "$DIR/evidence" "$DIR/replays"
 go build -o "$DIR"/bin/verif ./cmd/verif
 "$DIR"/bin/verif build
+# C04 compares the protocol package built with -tags unsafe (checkptr on): warm that build too
+go build -tags "verif unsafe" -gcflags=all=-d=checkptr -o /dev/null ./cmd/verifrun
 echo setup ok
